@@ -293,7 +293,81 @@ def c11(pid, tier, work, replay):
         "InvalidPeers / ActivePeers of the reply")
 
 
+def table_check(pid, tier, work, module, cfg, runs, rule, assumptions, mc=(), extra_jobs=None, key=lambda ln: json.dumps(ln.get("c"), sort_keys=True)):
+    """Exhaustive case tables: the driver executes every case of the table the
+    specification defines and logs the abstract outcome; TLC checks each line
+    against the specification and that the table is complete."""
+    t0 = time.time()
+    C.build(("sim",))
+    mcs = [C.model_check(m, c, work) for m, c in mc]
+    classes, samples = set(), []
+    nlines = 0
+    for name, args in runs:
+        tp = os.path.join(work, name + ".ndjson")
+        st = os.path.join(work, name + ".status")
+        _, status, rc, out = C.run_sim({}, work, name, args=[a.replace("@TRACE", tp).replace("@STATUS", st).replace("@WORK", work) for a in args])
+        if status != "OK":
+            raise C.Machinery("driver %s did not finish: status=%r rc=%d\n%s" % (name, status, rc, out[-3000:]))
+        job = Job(name, None, module, cfg)
+        job.trace = tp
+        ok, matched, total, tout = C.validate_trace(module, cfg, tp, work)
+        job.accepted, job.matched, job.lines, job.env = ok, matched, total, None
+        if ok:
+            # the TLC run of a table is itself an exhaustive enumeration of the specification's case set
+            d, g = C.tlc_counts(tout)
+            mcs.append({"module": module, "cfg": cfg, "states": d, "transitions": g, "wall_s": 0})
+        if not ok:
+            if matched >= total:
+                note = "table %s is not complete: the driver did not execute every case of the specification's table" % name
+                raise C.Machinery(note)
+            note = explain_reject(job, work)
+            rp = C.save_replay(pid, [tp], note + "\nmodule=" + module)
+            write(pid, tier, mcs, 0, nlines, classes, samples, rule, assumptions, t0, {"exhaustive": True}, violations=1)
+            raise C.Violation(note, rp)
+        with open(tp) as f:
+            for line in f:
+                ln = json.loads(line)
+                nlines += 1
+                classes.add(key(ln))
+                if len(samples) < 4 and nlines % 397 == 1:
+                    samples.append({k: v for k, v in ln.items() if k not in ("bad", "i")})
+        C.log("table %s: %d cases accepted, table complete (%s)" % (name, total, module))
+    ntr = len(runs)
+    if extra_jobs:
+        done = []
+        for j in extra_jobs:
+            done.append(run_job(j, work))
+        for j in done:
+            if not j.accepted:
+                note = explain_reject(j, work)
+                rp = C.save_replay(pid, [j.trace, os.path.join(work, j.name + ".script.json")], note)
+                write(pid, tier, mcs, ntr, nlines, classes, samples, rule, assumptions, t0, {"exhaustive": True}, violations=1)
+                raise C.Violation(note, rp)
+            ntr += summarize_trace(j.trace, set(), [])
+            nlines += j.lines
+            C.log("trace %s: %d lines accepted (%s, focus=%s)" % (j.name, j.lines, j.module, j.focus))
+    write(pid, tier, mcs, ntr, nlines, classes, samples, rule, assumptions, t0, {"exhaustive": True})
+    return 0
+
+
+def c19(pid, tier, work, replay):
+    s = C.seed()
+    runs = [("c19-table-memory", ["uritable", "memory", "@WORK/b19m", "@TRACE", "@STATUS"])]
+    if tier != "quick":
+        runs.append(("c19-table-badger", ["uritable", "badger", "@WORK/b19b", "@TRACE", "@STATUS"]))
+    nt, nops = sized(tier, (12, 40), (200, 60))
+    extra = pool_jobs("c19p", "C19", s, nt, nops, work, weights=dict(reconnect=30, host=10, update=10, peer=10, sleep=5, close=5, reopen=8))
+    return table_check(
+        pid, tier, work, "VipNodeURI", "VipNodeURI.cfg", runs,
+        "complete table: override absent/present x scheme {enode,http,none} x user {none,empty,own,other,own:password} x host "
+        "{none,[::],0.0.0.0,IPv4,IPv6,DNS} x port {none,given} x {plain,path,query} x source address {IPv4,IPv6,none} = 1623 cases, each "
+        "through a real signed vipnode_connect; plus the stored URI of every host registration of random sessions",
+        POOL_ASSUME + ["scheme-less overrides are not URIs: refusing them, using them or falling back to the default are all accepted as long as the stored address carries the own id and a supplied-or-source host"],
+        extra_jobs=extra)
+
+
 CHECKS = {
+    "C19": c19,
     "PXX": pxx,
     "C01": c01,
     "C02": c02,
